@@ -1,6 +1,6 @@
 (* Proofs about model/SerStore.v: the obfuscation layer of the block files. *)
 From Coq Require Import NArith.
-From BV Require Import lib.Ints gen.Params_gen model.SerBase model.SerStore proofs.SerBaseLemmas.
+From BV Require Import lib.Ints gen.Params_gen model.SerBase model.SerTx model.SerStore proofs.SerBaseLemmas.
 Local Open Scope Z_scope.
 
 (* ---- XOR of little-endian numbers is XOR of their bytes ---- *)
@@ -409,4 +409,82 @@ Proof.
   rewrite (obfuscate_spec kb Hk Lk off m1 a Ha Ho H1).
   rewrite (obfuscate_spec kb Hk Lk (off + Z.of_nat (length a)) m2 b Hb ltac:(lia) H2).
   apply xor_stream_app; assumption.
+Qed.
+
+(* ------------------------------------------------------------------------------------------ *)
+(* block records *)
+
+Lemma bytes_eq_eq a : forall b, bytes_eq a b = true <-> a = b.
+Proof.
+  induction a as [|x a IH]; intros [|y b]; simpl; split; intros H; try reflexivity; try discriminate.
+  - apply andb_prop in H. destruct H as [H1 H2]. apply N.eqb_eq in H1. apply IH in H2. subst. reflexivity.
+  - inversion H; subst. rewrite N.eqb_refl. simpl. apply IH. reflexivity.
+Qed.
+
+Lemma skipn_app_exact {A} (a b : list A) : skipn (length a) (a ++ b) = b.
+Proof. rewrite skipn_app, Nat.sub_diag, skipn_all. reflexivity. Qed.
+
+(* READ AFTER WRITE: wherever the record sits in the file (any bytes before it - earlier records -
+   and any bytes after it - later records or preallocated space), reading at the position WriteBlock
+   returned gives exactly the payload *)
+Lemma read_write_block magic pre payload post :
+  length magic = 4%nat -> Z.of_nat (length payload) <= MAX_SIZE ->
+  read_raw_block magic (pre ++ write_record magic payload ++ post) (Z.of_nat (length pre) + 8) = Some payload.
+Proof.
+  intros Lm Lp. unfold read_raw_block.
+  assert (E : (Z.of_nat (length pre) + 8 <? 8) = false) by lia. rewrite E.
+  replace (Z.to_nat (Z.of_nat (length pre) + 8 - 8)) with (length pre) by lia.
+  rewrite skipn_app_exact. unfold write_record. rewrite <- !app_assoc.
+  rewrite <- Lm at 1. rewrite read_bytes_app.
+  rewrite read_le_write.
+  rewrite max_size_value in Lp.
+  rewrite wrapu_id by (change (2 ^ (8 * Z.of_nat 4)) with 4294967296; lia).
+  assert (Em : bytes_eq magic magic = true) by (apply bytes_eq_eq; reflexivity). rewrite Em. cbn [negb].
+  assert (E2 : (Z.of_nat (length payload) >? MAX_SIZE) = false) by (rewrite max_size_value; lia). rewrite E2.
+  rewrite read_bytes_z_eq by lia. rewrite Nat2Z.id, read_bytes_app. reflexivity.
+Qed.
+
+(* FRAMING: whatever ReadRawBlock returns is the payload of a well-framed record at that position:
+   the 4 bytes before the size are the network magic, the size field is the length of the returned
+   data and is at most MAX_SIZE.  So a record whose magic differs, or whose size field exceeds
+   MAX_SIZE or the bytes available, is reported as a read failure. *)
+Lemma read_raw_block_framed magic file pos data : bytes_ok file ->
+  read_raw_block magic file pos = Some data ->
+  8 <= pos /\ Z.of_nat (length data) <= MAX_SIZE /\
+  exists pre post, file = pre ++ write_record magic data ++ post /\ Z.of_nat (length pre) = pos - 8.
+Proof.
+  intros Hf H. unfold read_raw_block in H.
+  destruct (pos <? 8) eqn:E; [discriminate|].
+  set (n := Z.to_nat (pos - 8)) in *.
+  assert (Hs : bytes_ok (skipn n file)) by (apply bytes_ok_skipn; exact Hf).
+  destruct (read_bytes 4 (skipn n file)) as [m s1|e] eqn:R1; [|discriminate].
+  apply read_bytes_inv in R1. destruct R1 as [Es Lm].
+  rewrite Es in Hs. apply bytes_ok_app in Hs. destruct Hs as [_ Hs1].
+  destruct (read_le 4 s1) as [size s2|e] eqn:R2; [|discriminate].
+  apply read_le_inv in R2; [|exact Hs1]. destruct R2 as [Es1 Hsize].
+  destruct (bytes_eq m magic) eqn:M; [|discriminate]. cbn [negb] in H. apply bytes_eq_eq in M. subst m.
+  destruct (size >? MAX_SIZE) eqn:S; [discriminate|].
+  destruct (read_bytes_z size s2) as [d s3|e] eqn:R3; [|discriminate]. inversion H; subst d. clear H.
+  rewrite read_bytes_z_eq in R3 by lia. apply read_bytes_inv in R3. destruct R3 as [Es2 Ld].
+  assert (Ln : (n <= length file)%nat).
+  { destruct (Nat.le_gt_cases n (length file)) as [Hle|Hgt]; [exact Hle|].
+    rewrite skipn_all2 in Es by lia. destruct magic; [cbn in Lm; lia|discriminate]. }
+  split; [lia|]. split; [rewrite Ld; lia|].
+  exists (firstn n file), s3. split.
+  - rewrite <- (firstn_skipn n file) at 1. f_equal. rewrite Es, Es1, Es2. unfold write_record.
+    rewrite Ld, Z2Nat.id by lia. rewrite <- !app_assoc. reflexivity.
+  - rewrite firstn_length. unfold n in *. lia.
+Qed.
+
+(* ReadBlock succeeds only on a well-framed record whose payload starts with a block that
+   deserialises and whose header passes the hash tests *)
+Lemma read_block_true header_ok magic file pos : bytes_ok file ->
+  read_block header_ok magic file pos = true ->
+  exists data b rest, read_raw_block magic file pos = Some data /\
+    unser_block true data = Ok b rest /\ header_ok (b_header b) = true.
+Proof.
+  intros Hf H. unfold read_block in H.
+  destruct (read_raw_block magic file pos) as [data|] eqn:R; [|discriminate].
+  destruct (unser_block true data) as [b rest|e] eqn:U; [|discriminate].
+  exists data, b, rest. repeat split; auto.
 Qed.
